@@ -67,4 +67,14 @@ CHECKS = {
         "assumptions": ["request ids are unique in their first 8 characters (the file name keeps only 8)", "one open run per DAG (C16); updates address closed runs (the API refuses edits while running)", "retention is defined on file mtime, ages are generated >=1h away from the boundary", "process time zone UTC; a case during which the calendar date changes is discarded"],
         "stages": [sim_stage(300, 4000, shrinktime="30s", env={"TZ": "UTC"})],
     },
+    "C17": {
+        "pkg": "c17", "level": "exploration", "exhaustive_claim": False,
+        "rule": "header grammar x auth configuration grid through middleware.Setup + SetupGlobalMiddleware(sentinel) with httptest: 33 configurations (none / basic / token / both; empty password, prefix-related and scheme-named tokens, a token equal to base64(user:pass)) x scheme spelling (Basic/basic/BASIC/Bearer/bearer/Token/none/doubled) x separator (one space, two spaces, tab, none) x ~22 payload variants (correct, truncated, extended, wrong case, wrong user/password, password only, invalid base64, missing colon, token under Basic, base64(token) ...) x absent/empty/multiple headers x method x routed path shape x base path; plus rapid-random combinations and random printable headers (and native fuzzing of the raw header value in the thorough tier). Oracle = decision table from the property: only-if (API sentinel reached => some blank-separated field of the first Authorization header is the token or base64-decodes to exactly user:password), if (exact standard form => reached), otherwise 401 and sentinel not reached; auth off => reached. Non-trivial: auth configured and header present but not in exact standard form, or both mechanisms configured. Distinct: grid members by construction, random cases by hash.",
+        "assumptions": ["tokens contain no blanks and user names no colon (RFC forms); empty token is judged on the only-if direction only", "OPTIONS is answered by the CORS layer after authentication and counts as passed when not 401", "non-/api paths (UI assets) are outside the property", "CONNECT has no path and is not generated"],
+        "stages": [
+            {"name": "grid", "run": "TestGrid", "kind": "plain", "shards": 16, "timeout": {"quick": 600, "thorough": 1800}},
+            sim_stage(20000, 300000),
+            {"name": "fuzz", "run": "FuzzHeader", "kind": "fuzz", "tiers": ["thorough"], "fuzztime": {"thorough": "60s"}, "shards": 1, "timeout": {"thorough": 400}},
+        ],
+    },
 }
